@@ -186,6 +186,48 @@ impl C04 {
                     }
                 }
             }
+            // (b3) holder of a neighbouring role: the container's *other* authority fields are handed to the attacker
+            // (as their owners could do any time); the attacker then signs for this role - must still be rejected
+            {
+                let neighbours: Option<(&str, usize, &[usize])> = match *slot {
+                    "fee_authority" => Some(("whirlpools_config", 8, &[40, 72])),
+                    "collect_protocol_fees_authority" => Some(("whirlpools_config", 40, &[8, 72])),
+                    "reward_emissions_super_authority" => Some(("whirlpools_config", 72, &[8, 40])),
+                    "config_extension_authority" => Some(("whirlpools_config_extension", 40, &[72])),
+                    "token_badge_authority" => Some(("whirlpools_config_extension", 72, &[40])),
+                    "initialize_pool_authority" => Some(("adaptive_fee_tier", 44, &[76])),
+                    "delegated_fee_authority" => Some(("adaptive_fee_tier", 76, &[44])),
+                    _ => None,
+                };
+                if let Some((kslot, own, others)) = neighbours {
+                    let kslot = if kslot == "whirlpools_config" && c.idx("whirlpools_config").is_none() { "config" } else { kslot };
+                    if let Some(ka) = c.idx(kslot).map(|ci| v.ix.accounts[ci].pubkey) {
+                        if let Some(a) = v.pre.get(&ka) {
+                            let need = others.iter().chain(std::iter::once(&own)).max().copied().unwrap_or(0) + 32;
+                            // only when this slot's key really is the field's value (e.g. the fee authority may sign in the
+                            // token-badge slot by design when no extension exists)
+                            if a.owner == ix::wp() && a.data.len() >= need && a.data[own..own + 32] == right.to_bytes() {
+                                let mut d = (*a.data).clone();
+                                for o in others {
+                                    d[*o..*o + 32].copy_from_slice(attacker.as_ref());
+                                }
+                                let mut f = base.clone();
+                                f.put(ka, Account::new(a.lamports, d, a.owner));
+                                let mut ixn = v.ix.clone();
+                                ixn.accounts[i].pubkey = attacker;
+                                ixn.accounts[i].is_signer = true;
+                                let r = exec(&f, ixn);
+                                cov.eval(format!("{}|{}|neighbouring_role_holder", name, slot));
+                                self.cell(format!("{} / {} / holder of the neighbouring role in the same {}", name, slot, kslot), !r.ok);
+                                if r.ok {
+                                    out.push(v04("neighbouring_role_accepted", idx, format!("{}: succeeded for a key that holds only the other authority field(s) of the `{}` account, signing as `{}`", name, kslot, slot)));
+                                    return;
+                                }
+                            }
+                        }
+                    }
+                }
+            }
             // position / bundle authorities: delegate and empty-account variants
             let ta_slot = match *slot {
                 "position_authority" => "position_token_account",
@@ -205,6 +247,17 @@ impl C04 {
                 let r = exec(&f, ixn);
                 cov.eval(format!("{}|{}|delegate{}", name, slot, n));
                 if n == 1 {
+                    // the one-token delegate's key without its signature must never do
+                    let mut ixu = v.ix.clone();
+                    ixu.accounts[i].pubkey = attacker;
+                    ixu.accounts[i].is_signer = false;
+                    let ru = exec(&f, ixu);
+                    cov.eval(format!("{}|{}|delegate1_unsigned", name, slot));
+                    self.cell(format!("{} / {} / delegate(1) key unsigned", name, slot), !ru.ok);
+                    if ru.ok {
+                        out.push(v04("missing_signature_accepted", idx, format!("{}: succeeded for the one-token delegate's key although it did not sign", name)));
+                        return;
+                    }
                     // the documented one-token delegate: may succeed (it does when it needs none of its own funds)
                     self.cell(format!("{} / {} / delegate(1) [may succeed]", name, slot), true);
                     if r.ok {
